@@ -70,8 +70,13 @@ def run(ctx, rep):
             rep.check(n.id not in wo, "R1", key(f, n.exprs[0], "only after the controls passed"), f, n.exprs[0],
                       "an order can be queued for the exchange without having passed the exposure controls",
                       cfg.fmt_path(cfg.path(cfg.entry, n.id, (), blocked | {(vnode.id, pass_lab)})) if n.id in wo else None)
-        pt = utext([c for c in calls_in(vnode, "_validate_controls")][0].args[1])
-        rep.check(pt == "OrderPackageType.%s" % mut.upper(), "R1", key(f, None, "validated as %s" % mut.upper()), f)
+        from rules.c02 import validation_wrappers
+        vcs = [c for c in calls_in(vnode, "_validate_controls")]
+        for wname, wf in validation_wrappers(f).items():
+            if calls_in(vnode, wname):
+                vcs += [c for c in walk_calls(wf.node.body) if call_name(c) == "_validate_controls"]
+        pts = {utext(c.args[1]) for c in vcs if len(c.args) > 1}
+        rep.check(pts == {"OrderPackageType.%s" % mut.upper()}, "R1", key(f, None, "validated as %s" % mut.upper()), f, None, str(sorted(pts)))
 
     # ------------------------------------------------------------------ R2 all controls, one handler
     vc = prog.own_method("Transaction", "_validate_controls")
@@ -152,7 +157,13 @@ def run(ctx, rep):
         f = prog.own_method("Transaction", mname)
         cfg = ctx.cfg(f)
         vnode, pass_lab, refuse_lab = validation_node(cfg, f)
-        vcall = [c for c in calls_in(vnode, "_validate_controls")][0]
+        vcs_ = [c for c in calls_in(vnode, "_validate_controls")]
+        if not vcs_:
+            from rules.c02 import validation_wrappers
+            vcs_ = [c for wname in validation_wrappers(f) for c in calls_in(vnode, wname)]
+        if not vcs_:
+            raise AnalysisError("%s: validation call not found in the validation test" % f.qual)
+        vcall = vcs_[0]
         passed = any(param in [n.id for n in ast.walk(a) if isinstance(n, ast.Name)]
                      for a in list(vcall.args) + [k.value for k in vcall.keywords])
         stored = False
@@ -200,6 +211,18 @@ def run(ctx, rep):
     matched = [n for n, c in node_calls(cfg, "append") if recv_text(c) in ("mb", "ml")]
     unmatched = [n for n, c in node_calls(cfg, "append") if recv_text(c) in ("ub", "ul")]
     rep.floor("R8", "matched / unmatched contributions", len(matched) + len(unmatched), 4)
+    # the figures are recomputed from the orders on every call: a remembered result would go stale when an
+    # order's status changes without the blotter being touched (PENDING -> EXECUTABLE on acknowledgement)
+    from sa.kinds import get_effects
+    eff8 = get_effects(ctx)
+    for q in ("Blotter.get_exposures", "Blotter.market_exposure", "Blotter.selection_exposure"):
+        cn_, mn_ = q.split(".")
+        g8 = prog.cls(cn_).methods.get(mn_)
+        if g8 is None:
+            continue
+        own8 = eff8.own_effects(g8, g8.node.body)
+        rep.check(not own8, "R8", key(g8, None, "exposure is computed from the orders on every call, nothing is remembered"), g8,
+                  own8[0][0] if own8 else None, "; ".join(d for _, d in own8[:3]))
     bad = []
     n_cases = 0
     for prospective in (False, True):
